@@ -141,3 +141,43 @@ Proof.
 Qed.
 
 End Class.
+
+(* ---------- the proved classes, assembled again ---------- *)
+Definition in_proved_class2 (sbase : option spec_url) (input : list N) : bool :=
+  in_proved_class sbase input
+  || match sbase with None => in_class_authority input | Some _ => false end.
+
+(* the hypothesis on the host functions concerns the authority class only, and there only the one
+   string the host parsers are applied to *)
+Definition host_hyp (hpo : list N -> result host) (hd : host -> list N)
+           (shp : bool -> list N -> option spec_host) (shs : spec_host -> list N)
+           (sbase : option spec_url) (input : list N) : Prop :=
+  sbase = None -> in_class_authority input = true -> host_agree hpo hd shp shs (class_host_text input).
+
+Lemma agree_strict_agree dbg shs m s : agree_strict dbg shs m s -> agree dbg shs m s.
+Proof.
+  unfold agree_strict, agree. destruct s as [su|u|]; [|exact (fun H => H) | exact (fun H => H)].
+  intros [[E _]|K]; [left; exact E | right; exact K].
+Qed.
+
+Theorem partial_equivalence_strict2 dbg hp hpo hd shp shs input base sbase :
+  usv_list input -> base_rel dbg shs base sbase -> in_proved_class2 sbase input = true ->
+  host_hyp hpo hd shp shs sbase input ->
+  agree_strict dbg shs (parse_url dbg hp hpo hd None base input) (spec_basic_url_parse shp input sbase).
+Proof.
+  intros Hu Hb Hc HH. unfold in_proved_class2 in Hc.
+  destruct (in_proved_class sbase input) eqn:E1.
+  - apply partial_equivalence_strict; assumption.
+  - cbn [orb] in Hc. destruct sbase as [sb|]; [discriminate Hc|].
+    destruct base as [b|]; [cbn [base_rel] in Hb; contradiction|].
+    pose proof (class_authority dbg hp hpo hd None shp shs input Hu Hc (HH eq_refl Hc)) as A.
+    unfold agree_rel_strict, agree_strict in *.
+    destruct (spec_basic_url_parse shp input None) as [su|u|]; [|exact A | exact A].
+    destruct A as [K|(u & E & R)]; [left; exact K|]. right. exists u. split; [exact E | exact (rel_api _ _ _ _ R)].
+Qed.
+
+Theorem partial_equivalence2 dbg hp hpo hd shp shs input base sbase :
+  usv_list input -> base_rel dbg shs base sbase -> in_proved_class2 sbase input = true ->
+  host_hyp hpo hd shp shs sbase input ->
+  agree dbg shs (parse_url dbg hp hpo hd None base input) (spec_basic_url_parse shp input sbase).
+Proof. intros Hu Hb Hc HH. apply agree_strict_agree. apply partial_equivalence_strict2; assumption. Qed.
